@@ -102,6 +102,31 @@ def rule_expstate(ctx, py):
     ctx.floor(R, 4)
 
 
+def rule_rawtext(ctx, py):
+    """C18.RAW-TEXT -- what the parser sees is what the caller wrote: a parameter handed to parse_units is not rewritten on the
+    way (no strip / split / partition / replace of it in the calling function).  Trimming the text first makes strings outside
+    the grammar -- an embedded blank, a leading value -- parse as the unit their tail spells."""
+    R = "C18.RAW-TEXT"
+    n = 0
+    for f in py.mods["units"].funcs.values():
+        if f.name == "parse_units":
+            continue
+        ps = set(pyfe.params(f))
+        for c in pyfe.calls_in(f):
+            if pyfe.call_name(c) != "parse_units" or not c.args or not isinstance(c.args[0], ast.Name) or c.args[0].id not in ps:
+                continue
+            p_ = c.args[0].id
+            re_ = [st for st in ast.walk(f) if isinstance(st, (ast.Assign, ast.AugAssign)) and
+                   any(isinstance(t, ast.Name) and t.id == p_ for t in (st.targets if isinstance(st, ast.Assign) else [st.target]))
+                   and not (isinstance(st.value, ast.Call) and pyfe.call_name(st.value) in ("parse_units", "parse_unitvalue"))]
+            n += 1
+            ctx.check(not re_, R, re_[0] if re_ else c, f._qual, "parse_units(%s)" % p_, "the text as given", "`%s` is rewritten (`%s`) "
+                      "before it is parsed: text outside the grammar is trimmed into something the parser accepts"
+                      % (p_, pyfe.src(re_[0])[:50] if re_ else ""))
+    ctx.need(n >= 3, R, "only %d parse_units(<parameter>) call sites found" % n)
+    ctx.floor(R, 3)
+
+
 def rule_micro(ctx, py):
     R = "C18.MICRO"
     lab = c06.module_dict(py, "_units_labels_dict")
@@ -423,6 +448,7 @@ def rule_blocks(ctx, py):
 def run(ctx):
     py = ctx.py
     rule_samebase(ctx, py)
+    rule_rawtext(ctx, py)
     rule_expstate(ctx, py)
     rule_value_read(ctx, py)
     rule_expsum(ctx, py)
